@@ -127,14 +127,24 @@ func (ch *CmdHandler) Add(cmd *Command) error {
 		return fmt.Errorf("command already registered: %s", cmd.Name)
 	}
 
+	// Check every alias before registering anything, so that a rejected
+	// command isn't left partially registered.
+	for i := 0; i < len(cmd.Aliases); i++ {
+		if _, ok := ch.cmds[cmd.Aliases[i]]; ok || cmd.Aliases[i] == cmd.Name {
+			return fmt.Errorf("alias already registered: %s", cmd.Aliases[i])
+		}
+
+		for j := 0; j < i; j++ {
+			if cmd.Aliases[j] == cmd.Aliases[i] {
+				return fmt.Errorf("alias already registered: %s", cmd.Aliases[i])
+			}
+		}
+	}
+
 	ch.cmds[cmd.Name] = cmd
 
 	// Since we'd be storing pointers, duplicates do not matter.
 	for i := 0; i < len(cmd.Aliases); i++ {
-		if _, ok := ch.cmds[cmd.Aliases[i]]; ok {
-			return fmt.Errorf("alias already registered: %s", cmd.Aliases[i])
-		}
-
 		ch.cmds[cmd.Aliases[i]] = cmd
 	}
 
